@@ -86,6 +86,16 @@ def weak_models(tier):
     out.append(('weak', 'raising', {'classes': catalog.BASE + [{'name': 'K', 'params': [('x', 'int')],
                                                                 'hooks': {'savorize': [('get_attr', 'nope')]}}],
                                     'root': ('cls', 'K')}))
+    # the parsed-class recipe of the documentation: a string is taken apart and the mapping is built with make_mapping()
+    # and set_attribute(); what is wrong with a part is reported for a node made by the helpers
+    en = {'name': 'En', 'kind': 'enum', 'members': ['north', 'south']}
+    for t2 in (('cls', 'En'), 'int', ('list', 'int')):
+        k = {'name': 'K', 'params': [('n', 'str'), ('e', t2)],
+             'hooks': {'recognize': [('require_scalar', ['str'])], 'savorize': [('parse_pair', 'n', 'e')]},
+             'docs': [S('str', 'x north'), S('str', 'y south'), S('str', 'x zzz'), S('str', 'x'), S('str', 'x 5'), S('str', '')]}
+        out.append(('weak', 'parsed-class', {'classes': catalog.BASE + [en, k], 'root': ('list', ('cls', 'K'))}))
+        out.append(('weak', 'parsed-class', {'classes': catalog.BASE + [en, k, {'name': 'H', 'params': [('k', ('cls', 'K')), ('m', 'int', 0)]}],
+                                             'root': ('dict', 'str', ('cls', 'H'))}))
     for kind in ('userstring', 'ystring'):
         out.append(('weak', 'raising', {'classes': catalog.BASE + [{'name': 'W', 'kind': kind, 'raises': 'ValueError'}],
                                         'root': ('list', ('cls', 'W'))}))
@@ -137,8 +147,18 @@ def units(tier):
 
 # ---------------------------------------------------------------- positions
 
+SRCPOS = re.compile(r'in "([^"]*)", line (\d+), column (\d+)')
+
+
 def cited(msg):
-    return [(int(a), int(b)) for a, b in POS.findall(msg)]
+    out = []
+    named = {(int(a), int(b)): n for n, a, b in SRCPOS.findall(msg)}
+    for a, b in POS.findall(msg):
+        p = (int(a), int(b))
+        # a position in something that is not the document ("generated node", the marks the Node helpers used to put
+        # on the nodes they make) is not a position inside the document
+        out.append((-1, -1) if named.get(p, '<unicode string>') == 'generated node' else p)
+    return out
 
 
 def inside(text, line, col):
